@@ -115,7 +115,7 @@ def reply_of(out, rc, errs):
 
 def cases(tier, seed, escalate):
     rng = random.Random(seed * 7919 + 6)
-    n = 1500 if tier == "quick" else 20000
+    n = 4000 if tier == "quick" else 50000
     if escalate:
         n *= 4
     res = []
